@@ -14,6 +14,7 @@ import (
 	"testing/synctest"
 	"time"
 
+	"github.com/prometheus/prometheus/model/histogram"
 	"github.com/prometheus/prometheus/model/labels"
 	"github.com/prometheus/prometheus/storage"
 	"github.com/prometheus/prometheus/tsdb"
@@ -137,6 +138,7 @@ type exec struct {
 	ooo        [][]smp
 	oooPending [][]smp
 
+	hcnt     []int64 // per series: current bucket count of its histogram counter
 	stopped  bool
 	finished map[string]bool
 	failed   bool
@@ -225,7 +227,26 @@ func (e *exec) appender(a int, txs []Tx) {
 				}
 				e.mu.Unlock()
 				v := float64(txid*1000 + len(pend))
-				_, err := app.Append(0, e.lsets[s], t*tick, v)
+				var err error
+				if e.cfg.Hist && s%2 == 1 {
+					// an integer histogram whose sum carries the value; the bucket counts grow, and drop now and then
+					e.mu.Lock()
+					if e.hcnt == nil {
+						e.hcnt = make([]int64, e.cfg.NSeries)
+					}
+					if e.hcnt[s] > 3 && prng.Derive(e.cfg.Seed, 0x4e5e7, uint64(txid), uint64(len(pend)))%5 == 0 {
+						e.hcnt[s] = 1 // counter reset: the head starts a new chunk for it
+						e.res.Count("histogram_counter_resets", 1)
+					} else {
+						e.hcnt[s] += 2
+					}
+					c := e.hcnt[s]
+					e.mu.Unlock()
+					h := &histogram.Histogram{Schema: 0, Count: uint64(2*c + 1), Sum: v, PositiveSpans: []histogram.Span{{Offset: 0, Length: 2}}, PositiveBuckets: []int64{c, 1}}
+					_, err = app.AppendHistogram(0, e.lsets[s], t*tick, h, nil)
+				} else {
+					_, err = app.Append(0, e.lsets[s], t*tick, v)
+				}
 				if err != nil {
 					// too old / out of bounds for this appender's window: not part of the transaction
 					e.res.Count("append_refused", 1)
@@ -350,10 +371,31 @@ func (e *exec) reader(r int) {
 		var cq storage.ChunkQuerier
 		var err error
 		// creation of the querier and the expectation are one step (no scheduling point in between)
+		lo, hi := int64(math.MinInt64), int64(math.MaxInt64)
+		if e.cfg.Windows && rr.Chance(0.6) {
+			// a window that starts or ends on, just before or just behind a block boundary near the data
+			e.mu.Lock()
+			now := e.clock
+			e.mu.Unlock()
+			edge := func() int64 {
+				b := (now/e.cfg.R - int64(rr.Intn(4))) * e.cfg.R * tick
+				return b + int64(rr.Intn(3)-1)
+			}
+			switch rr.Intn(3) {
+			case 0:
+				hi = edge()
+			case 1:
+				lo = edge()
+			default:
+				lo = edge()
+				hi = lo + int64(rr.Range(0, 3))*e.cfg.R*tick + int64(rr.Intn(3)-1)
+			}
+			e.res.Count("windowed_queriers", 1)
+		}
 		if chunked {
-			cq, err = e.db.ChunkQuerier(math.MinInt64, math.MaxInt64)
+			cq, err = e.db.ChunkQuerier(lo, hi)
 		} else {
-			q, err = e.db.Querier(math.MinInt64, math.MaxInt64)
+			q, err = e.db.Querier(lo, hi)
 		}
 		if err != nil {
 			e.fail("reader-error", "querier-error", "reader %d: creating a querier failed: %v", r, err)
@@ -380,7 +422,7 @@ func (e *exec) reader(r int) {
 			return
 		}
 		e.res.Evals++
-		e.judge(r, step, want, got, chunked)
+		e.judgeWindow(r, step, want, got, chunked, lo, hi)
 	}
 }
 
@@ -394,8 +436,7 @@ func (e *exec) drain(q storage.Querier, cq storage.ChunkQuerier) (map[string][]s
 			key := ss.At().Labels().String()
 			it := ss.At().Iterator(nil)
 			for vt := it.Next(); vt != chunkenc.ValNone; vt = it.Next() {
-				t, v := it.At()
-				out[key] = append(out[key], smp{t: t, v: v})
+				out[key] = append(out[key], atSample(it, vt))
 			}
 			if it.Err() != nil {
 				return nil, fmt.Errorf("iterating %s: %w", key, it.Err())
@@ -410,8 +451,7 @@ func (e *exec) drain(q storage.Querier, cq storage.ChunkQuerier) (map[string][]s
 		for cit.Next() {
 			it := cit.At().Chunk.Iterator(nil)
 			for vt := it.Next(); vt != chunkenc.ValNone; vt = it.Next() {
-				t, v := it.At()
-				out[key] = append(out[key], smp{t: t, v: v})
+				out[key] = append(out[key], atSample(it, vt))
 			}
 			if it.Err() != nil {
 				return nil, fmt.Errorf("iterating chunk of %s: %w", key, it.Err())
@@ -424,8 +464,59 @@ func (e *exec) drain(q storage.Querier, cq storage.ChunkQuerier) (map[string][]s
 	return out, ss.Err()
 }
 
+// atSample reads the current sample of an iterator; a histogram is represented by its sum (which carries the value).
+func atSample(it chunkenc.Iterator, vt chunkenc.ValueType) smp {
+	switch vt {
+	case chunkenc.ValHistogram:
+		t, h := it.AtHistogram(nil)
+		return smp{t: t, v: h.Sum}
+	case chunkenc.ValFloatHistogram:
+		t, h := it.AtFloatHistogram(nil)
+		return smp{t: t, v: h.Sum}
+	}
+	t, v := it.At()
+	return smp{t: t, v: v}
+}
+
 // judge compares what a querier returned with what had been committed when it was created.
 func (e *exec) judge(r, step int, want snapshot, got map[string][]smp, chunked bool) {
+	e.judgeWindow(r, step, want, got, chunked, math.MinInt64, math.MaxInt64)
+}
+
+// judgeWindow: the querier covered [lo, hi]. A chunk querier returns whole chunks that overlap the window: samples
+// outside it are dropped before comparing.
+func (e *exec) judgeWindow(r, step int, want snapshot, got map[string][]smp, chunked bool, lo, hi int64) {
+	if lo != math.MinInt64 || hi != math.MaxInt64 {
+		clipS := func(in []smp) []smp {
+			var out []smp
+			for _, x := range in {
+				if x.t >= lo && x.t <= hi {
+					out = append(out, x)
+				}
+			}
+			return out
+		}
+		w2 := snapshot{}
+		for s := range want.in {
+			w2.in = append(w2.in, clipS(want.in[s]))
+			w2.oo = append(w2.oo, clipS(want.oo[s]))
+		}
+		want = w2
+		for k, v := range got {
+			if !chunked {
+				for _, x := range v {
+					if x.t < lo || x.t > hi {
+						e.fail("query-range", "sample-outside-queried-range", "reader %d: series %s returns t=%d outside the queried range [%d,%d]", r, k, x.t, lo, hi)
+						return
+					}
+				}
+			}
+			got[k] = clipS(v)
+			if len(got[k]) == 0 {
+				delete(got, k)
+			}
+		}
+	}
 	oracle := "isolation"
 	if e.cfg.Mode == "compact" {
 		oracle = "query-during-compaction"
